@@ -434,3 +434,125 @@ replace (theta (from_total (total_angle p d)) - R_ p * R_ PI / R_ d)
   with ((theta (from_total (total_angle p d)) - R_ (total_angle p d)) + (R_ (total_angle p d) - R_ p * R_ PI / R_ d)) by ring.
 eapply Rle_trans. apply Rabs_triang. lra.
 Qed.
+
+(* ================= Angle / f64 divides the total ================= *)
+(* the float total of an angle: fl(fl(blade * q) + rem) is within 2^-51 relative of theta *)
+Definition float_total (a : angle) : F := fadd (fmul (of_Z (blade a)) (fdiv PI two)) (rem a).
+
+Lemma float_total_value a : Canon a -> (blade a < 2 ^ 50)%Z ->
+  fin (float_total a) /\ 0 <= R_ (float_total a) /\
+  Rabs (R_ (float_total a) - theta a) <= / 2251799813685248 * theta a + bpow radix2 (-1000).
+Proof.
+intros [(Fr & R0 & R1) Bb] Hb. unfold float_total. change (fdiv PI two) with Q.
+destruct (of_Z_R (blade a) ltac:(lia)) as [Vb Fb].
+pose proof Qpos as Qp. pose proof E10pos as Ep.
+assert (Bz : 0 <= IZR (blade a) <= 1125899906842624).
+{ split. apply IZR_le; lia. apply IZR_le. lia. }
+destruct (fmul_R (of_Z (blade a)) Q Fb fin_Q) as [V1 F1].
+{ rewrite Vb. rewrite Rabs_pos_eq by nra. apply Rle_trans with (bpow radix2 52); [|apply bpow_le; lia].
+  assert (bpow radix2 52 = 4503599627370496) by (simpl; lra). rewrite Qval in *. nra. }
+rewrite Vb in V1.
+assert (P1 : 0 <= IZR (blade a) * R_ Q) by nra.
+pose proof (rnd_rel (IZR (blade a) * R_ Q)) as E1. rewrite <- V1 in E1. rewrite (Rabs_pos_eq _ P1) in E1.
+pose proof (rnd_ge0 _ P1) as L1. rewrite <- V1 in L1.
+set (x1 := fmul (of_Z (blade a)) Q) in *.
+assert (T1 : bpow radix2 (-1075) <= bpow radix2 (-1002)) by (apply bpow_le; lia).
+pose proof (bpow_gt_0 radix2 (-1075)) as Tp.
+assert (X1u : R_ x1 <= bpow radix2 52).
+{ apply Rabs_le_inv in E1. assert (bpow radix2 52 = 4503599627370496) by (simpl; lra). rewrite Qval in *.
+  assert (bpow radix2 (-1075) <= 1). { change 1 with (bpow radix2 0). apply bpow_le; lia. } nra. }
+destruct (fadd_R x1 (rem a) F1 Fr) as [V2 F2].
+{ apply Rle_trans with (bpow radix2 53); [|apply bpow_le; lia]. rewrite Rabs_pos_eq by lra.
+  assert (bpow radix2 53 = 2 * bpow radix2 52) by (change 2 with (bpow radix2 1); rewrite <- bpow_plus; reflexivity).
+  assert (B52 : bpow radix2 52 = 4503599627370496) by (simpl; lra). rewrite Qval, E10val in *. lra. }
+split; [exact F2|].
+assert (P2 : 0 <= R_ x1 + R_ (rem a)) by lra.
+split. rewrite V2. now apply rnd_ge0.
+pose proof (rnd_rel (R_ x1 + R_ (rem a))) as E2. rewrite <- V2 in E2. rewrite (Rabs_pos_eq _ P2) in E2.
+unfold theta.
+assert (T2 : 4 * bpow radix2 (-1002) <= bpow radix2 (-1000)).
+{ replace (bpow radix2 (-1000)) with (4 * bpow radix2 (-1002)) by (change 4 with (bpow radix2 2); rewrite <- bpow_plus; reflexivity). lra. }
+pose proof (bpow_gt_0 radix2 (-1002)).
+apply Rabs_le_inv in E1. apply Rabs_le_inv in E2. apply Rabs_le. nra.
+Qed.
+
+Lemma feq_PI_two : feq PI two = false. Proof. vm_compute. reflexivity. Qed.
+
+(* a / k divides the total by k: within the 1e-10 boundary tolerance plus a few roundings *)
+Lemma divf_value a k : Canon a -> (blade a < 2 ^ 50)%Z -> fin k ->
+  bpow radix2 (-900) <= R_ k <= bpow radix2 900 -> theta a / R_ k <= bpow radix2 41 ->
+  0 < R_ (total_angle (fdiv (float_total a) k) PI) ->
+  Canon (divf_v a k) /\
+  Rabs (theta (divf_v a k) - theta a / R_ k)
+    <= R_ eps10 + / 4503599627370496 + bpow radix2 (-69) + bpow radix2 (-49) * (theta a / R_ k).
+Proof.
+intros Ca Hb Fk [K0 K1] HW Hpos.
+destruct (float_total_value a Ca Hb) as (FT & T0 & ET).
+assert (Th0 : 0 <= theta a).
+{ destruct Ca as [(Fr & R0 & R1) Bb]. unfold theta. pose proof Qpos. assert (0 <= IZR (blade a)) by (apply IZR_le; lia). nra. }
+assert (Kp : 0 < R_ k). { pose proof (bpow_gt_0 radix2 (-900)). lra. }
+assert (Knz : R_ k <> 0) by lra.
+set (W := theta a / R_ k) in *.
+assert (W0 : 0 <= W). { unfold W. apply Rmult_le_pos; [exact Th0|]. left. now apply Rinv_0_lt_compat. }
+set (T := float_total a) in *.
+assert (B41 : bpow radix2 41 = 2199023255552) by (simpl; lra).
+assert (ik : 0 < / R_ k <= bpow radix2 900).
+{ split. now apply Rinv_0_lt_compat.
+  replace (bpow radix2 900) with (/ bpow radix2 (-900)) by (rewrite <- bpow_opp; reflexivity).
+  apply Rinv_le_contravar; [apply bpow_gt_0|exact K0]. }
+(* T / k versus W *)
+assert (TW : Rabs (R_ T / R_ k - W) <= / 2251799813685248 * W + bpow radix2 (-100)).
+{ unfold W. replace (R_ T / R_ k - theta a / R_ k) with ((R_ T - theta a) * / R_ k) by (field; exact Knz).
+  rewrite Rabs_mult, (Rabs_pos_eq (/ R_ k)) by lra.
+  apply Rle_trans with ((/ 2251799813685248 * theta a + bpow radix2 (-1000)) * / R_ k).
+  apply Rmult_le_compat_r; [lra|exact ET].
+  assert (bpow radix2 (-1000) * / R_ k <= bpow radix2 (-100)).
+  { replace (bpow radix2 (-100)) with (bpow radix2 (-1000) * bpow radix2 900) by (rewrite <- bpow_plus; reflexivity).
+    apply Rmult_le_compat_l; [apply bpow_ge_0|lra]. }
+  unfold Rdiv. nra. }
+assert (TK0 : 0 <= R_ T / R_ k). { apply Rmult_le_pos; [exact T0|lra]. }
+assert (P100 : bpow radix2 (-100) <= / 1073741824). { apply Rle_trans with (bpow radix2 (-30)). apply bpow_le; lia. simpl; lra. }
+pose proof (bpow_gt_0 radix2 (-100)) as P100p.
+apply Rabs_le_inv in TW.
+assert (TKu : R_ T / R_ k <= 4398046511104). { rewrite B41 in HW. lra. }
+(* D = T / k rounded *)
+destruct (fdiv_R T k FT Knz) as [VD FD].
+{ rewrite Rabs_pos_eq by exact TK0. apply Rle_trans with (bpow radix2 43); [|apply bpow_le; lia]. simpl. lra. }
+set (D := fdiv T k) in *.
+pose proof (rnd_rel (R_ T / R_ k)) as ED. rewrite <- VD in ED. rewrite (Rabs_pos_eq _ TK0) in ED.
+assert (D0 : 0 <= R_ D) by (rewrite VD; now apply rnd_ge0).
+assert (T1075 : bpow radix2 (-1075) <= bpow radix2 (-100)) by (apply bpow_le; lia).
+pose proof (bpow_gt_0 radix2 (-1075)) as Tp.
+apply Rabs_le_inv in ED.
+assert (Du : R_ D <= 8796093022208) by lra.
+(* new D PI *)
+destruct PIval as [VP FP]. pose proof Qpos as Qp.
+assert (PInz : R_ PI <> 0) by (rewrite VP; lra).
+assert (E1 : R_ D * R_ PI / R_ PI = R_ D) by (field; exact PInz).
+destruct (total_angle_value D PI FD FP PInz) as [Ftot Vtot].
+{ rewrite Rabs_pos_eq by (rewrite VP; nra). apply Rle_trans with (bpow radix2 47); [|apply bpow_le; lia].
+  assert (bpow radix2 47 = 140737488355328) by (simpl; lra). rewrite VP, Qval. nra. }
+{ rewrite E1, Rabs_pos_eq by exact D0. apply Rle_trans with (bpow radix2 44); [|apply bpow_le; lia]. simpl; lra. }
+{ rewrite Rabs_pos_eq by (rewrite VP; lra). apply Rle_trans with 1. change 1 with (bpow radix2 0). apply bpow_le; lia. rewrite VP, Qval; lra. }
+rewrite E1, (Rabs_pos_eq _ D0) in Vtot.
+set (nt := total_angle D PI) in *.
+apply Rabs_le_inv in Vtot.
+assert (P70 : bpow radix2 (-70) <= / 1073741824). { apply Rle_trans with (bpow radix2 (-30)). apply bpow_le; lia. simpl; lra. }
+pose proof (bpow_gt_0 radix2 (-70)) as P70p.
+assert (NTu : R_ nt <= bpow radix2 43). { assert (bpow radix2 43 = 8796093022208) by (simpl; lra). lra. }
+assert (Hf : fast_path D PI = false) by (unfold fast_path; rewrite feq_PI_two; reflexivity).
+assert (L : lift_total nt = nt).
+{ unfold lift_total. rewrite flt_R by auto using fin_zero. rewrite R_zero. rewrite Rlt_bool_false by lra. reflexivity. }
+unfold divf_v. fold (float_total a). fold T. fold D.
+split.
+- apply new_canon; fold nt; [exact Ftot|]. rewrite Rabs_pos_eq by lra. apply Rle_trans with (bpow radix2 43 / 2); [|].
+  2:{ replace (bpow radix2 43) with (2 * bpow radix2 42) by (change 2 with (bpow radix2 1); rewrite <- bpow_plus; reflexivity). lra. }
+  assert (bpow radix2 43 = 8796093022208) by (simpl; lra). lra.
+- rewrite new_unfold, Hf. fold nt. rewrite L.
+  pose proof (from_total_value nt Ftot (conj Hpos NTu)) as Vn. apply Rabs_le_inv in Vn.
+  assert (B69 : bpow radix2 (-69) = 2 * bpow radix2 (-70)) by (change 2 with (bpow radix2 1); rewrite <- bpow_plus; reflexivity).
+  assert (B49 : bpow radix2 (-49) = / 562949953421312) by (simpl; lra).
+  assert (S100 : 4 * bpow radix2 (-100) <= bpow radix2 (-70)).
+  { apply Rle_trans with (bpow radix2 (-98)). replace (bpow radix2 (-98)) with (4 * bpow radix2 (-100)) by (change 4 with (bpow radix2 2); rewrite <- bpow_plus; reflexivity). lra. apply bpow_le; lia. }
+  apply Rabs_le. rewrite B69, B49. nra.
+Qed.
